@@ -132,6 +132,14 @@ def run(ctx):
                 tuple(rf.netqasm_version) != tuple(rs.netqasm_version))):
             res.failures.append({"what": "deserialize(data, flavour) decodes differently from Deserializer(flavour)",
                                  "kf": None, "input": {"fl": fname, "request": rq}})
+        # input buffer types: bytes / bytearray / memoryview, the writable ones overwritten afterwards
+        # (a decoded subroutine must not share memory with the caller's receive buffer)
+        if rs is not None and rng.random() < 0.3:
+            res.count("buffer-types")
+            prob = H.decode_buffer_alias_problem(fname, rb, rng)
+            if prob is not None:
+                res.failures.append({"what": "decoding from a bytearray / memoryview: " + prob["what"], "kf": None,
+                                     "input": {"fl": fname, "request": rq, "detail": prob}})
         # decode-side history: edit the decoded objects in place, decode the same bytes again
         if rs is not None and rng.random() < 0.5:
             edited = False
